@@ -1096,6 +1096,10 @@ func (e *Engine) globalRef(g *ssa.Global) T {
 		e.declared[n] = true
 		e.emitDecl(fmt.Sprintf("(declare-const %s Ref)", n))
 		e.emitDecl(fmt.Sprintf("(assert (and (not (= %s nil)) (= (newid %s) 0) (= (rkind %s) 0)))", n, n, n))
+		// package-level variables are pairwise distinct objects
+		e.declFun("gvc_gidx", "(Ref) Int")
+		e.nGlobals++
+		e.emitDecl(fmt.Sprintf("(assert (= (gvc_gidx %s) %d))", n, e.nGlobals))
 	}
 	return T{n, sRef}
 }
